@@ -429,7 +429,11 @@ pub fn gen_json_for(r: &mut Rng, s: &O, miss: bool) -> Value {
         O::I128 => if r.chance(1, 3) { Value::Number(Number::from(r.next() | (1 << 63))) } else { int(r, 64, true) },
         O::U8 => int(r, 8, false), O::U16 => int(r, 16, false), O::U32 => int(r, 32, false), O::U64 | O::Usize | O::U128 => int(r, 64, false),
         O::F32 => {
-            let choices = [f64::from(f32::from_bits(r.next() as u32 & 0x7f7f_ffff)), 1e300, -1e39, 0.1, f64::from(f32::MAX), 3.5e38];
+            // the last f64 that still rounds to f32::MAX, the first that rounds to infinity, and their neighbours
+            let edge = f64::from_bits(0x47EF_FFFF_F000_0000); // 2^128 - 2^103
+            let choices = [f64::from(f32::from_bits(r.next() as u32 & 0x7f7f_ffff)), 1e300, -1e39, 0.1, f64::from(f32::MAX), 3.5e38,
+                edge, -edge, f64::from_bits(edge.to_bits() - 1), f64::from_bits(edge.to_bits() + 1), f64::from_bits(0x47F0_0000_0000_0000), f64::from_bits(0x47EF_FFFF_FFFF_FFFF),
+                f64::from(f32::MIN_POSITIVE) / 2.0, f64::from_bits(1), 1.0e-46, -0.0];
             Number::from_f64(*r.pick(&choices)).map(Value::Number).unwrap_or(Value::Null)
         }
         O::F64 => Number::from_f64(f64::from_bits(r.next())).map(Value::Number).unwrap_or(Value::Number(Number::from(0))),
